@@ -25,13 +25,22 @@ def cases(tier):
         for nt in range(2):
             for sq in range(2):
                 cs.append(dict(name=f"mtl_structure_{tf}{nt}{sq}", fn="mtl", args=dict(tier=tier, family="structure"), prefix=[tf, nt, sq], weight=4 if tf and nt else 1))
+    for kind in range(4):
+        for one in range(2):
+            cs.append(dict(name=f"mtl_containers_{kind}_{one}", fn="mtl", args=dict(tier=tier, family="containers"), prefix=[kind, one], weight=2))
     return cs
 
 
 def make_spec(sp, tier, family, own_fixed=None):
     """family 'layout': all tensor shapes vary, head structure fixed; family 'structure': shapes fixed, head structure varies"""
     S = SHAPES_T if tier == "thorough" else SHAPES_Q
-    if family == "layout":
+    if family == "containers":
+        # parameter lists given as list / tuple / one-shot generator / iterator; one task (a single-row Jacobian) or two
+        two_feats = choice(2, "two_features") == 1
+        n_tasks = 1 if symx.space().notes.get("single_task") else 2
+        shared_q = False
+        sp0, sf1, sf2 = (), (2,), ((1, 2) if two_feats else None)
+    elif family == "layout":
         sp0 = S[choice(len(S), "shape_p0")]
         sf1 = S[choice(len(S), "shape_f1")]
         two_feats = choice(2, "two_features") == 1
@@ -53,7 +62,10 @@ def make_spec(sp, tier, family, own_fixed=None):
         leaves.append(("q01", (2,), True))
     tasks_params = []
     for t in range(n_tasks):
-        if family == "layout":
+        if family == "containers":
+            own = [2, 1][t]
+            fs = ["f1", "f2"] if two_feats else ["f1"]
+        elif family == "layout":
             own = [2, 1][t]
             fs = (["f1"], ["f1", "f2"])[t] if two_feats else ["f1"]
         else:
@@ -75,6 +87,10 @@ def make_spec(sp, tier, family, own_fixed=None):
 
 def case_mtl(sp, tier, family):
     set_kernels()
+    kind = 0
+    if family == "containers":
+        kind = choice(4, "container_kind")
+        sp.notes["single_task"] = choice(2, "single_task") == 1
     spec, feats, n_tasks, tasks_params = make_spec(sp, tier, family)
     horder = choice(2, "set_order_shared")
     ranks = {"p0": horder, "p1": 1 - horder}
@@ -84,7 +100,7 @@ def case_mtl(sp, tier, family):
         for n, _ in o["outs"]:
             ranks[n] = 40 + i
     prog = Prog(spec, ranks=ranks)
-    explicit = choice(2, "explicit_lists") == 0
+    explicit = True if family == "containers" else choice(2, "explicit_lists") == 0
     ks = [None, 1, 2, 3] if family == "layout" else [None, 2]
     k = ks[choice(len(ks), "chunk")]
     losses = [f"loss{t}" for t in range(n_tasks)]
@@ -95,14 +111,15 @@ def case_mtl(sp, tier, family):
     A = AStar()
     kw = {}
     if explicit:
-        kw = dict(tasks_params=[[prog[n] for n in ps] for ps in tasks_params], shared_params=[prog["p0"], prog["p1"]])
+        from harness.C01 import as_container
+        kw = dict(tasks_params=[as_container([prog[n] for n in ps], kind) for ps in tasks_params], shared_params=as_container([prog["p0"], prog["p1"]], kind))
     mtl_backward([prog[n] for n in losses], [prog[f] for f in feats] if len(feats) > 1 or choice(2, "features_as_list") else prog[feats[0]], A,
                  parallel_chunk_size=k, **kw)
     obs = []
     def cex(model):
         return dict(kind="autojac_mtl", spec=spec_json(spec), losses=losses, features=feats, tasks_params=tasks_params if explicit else None,
                     shared_params=["p0", "p1"] if explicit else None, expected_tasks_params=tasks_params, expected_shared=["p0", "p1"],
-                    jac=jac_values(model, prog), v=cex_values(model, v=[o._flat() for o in A.outs])["v"], chunk=k,
+                    jac=jac_values(model, prog), v=cex_values(model, v=[o._flat() for o in A.outs])["v"], chunk=k, container=["list", "tuple", "generator", "iterator"][kind],
                     old={kk: (cex_values(model, g=g)["g"] if g is not None else None) for kk, g in old.items()})
     # --- task specific parameters
     all_task = sorted({n for ps in tasks_params for n in ps})
